@@ -1238,11 +1238,18 @@ def monitor_world(ctx, w):
                 ("server", w.sent["s"], connects[0][0], t_disc if t_disc is not None else w.sweeps[-1], sc["ka_s"], si_s, spacing_s)):
             seq = [t for t in times if start <= t <= stop]
             for x, y in zip(seq, seq[1:] + [stop]):
+                changed_at = None
                 if side == "client":
-                    # the keep-alive interval in force: the last value set at or before x (a change in (x, y] may stretch this one gap)
-                    vals = [v for (tt_, v) in [(tc, w.ka_at_connect)] + w.ka_changes if tt_ <= y]
-                    ka = max(vals[-2:]) if len(vals) > 1 and w.ka_changes and x < w.ka_changes[-1][0] else vals[-1]
+                    # the keep-alive interval in force at y: the last value set at or before y. A setter call inside (x, y] takes effect
+                    # at the next update: the datagram is due max(ka, send interval) after x or at the moment of the change, whichever
+                    # is later - a lowered interval is not allowed to wait for the old one to run out
+                    hist = [(tt_, v) for (tt_, v) in [(tc, w.ka_at_connect)] + w.ka_changes if tt_ <= y]
+                    ka = hist[-1][1]
+                    if hist[-1][0] > x:
+                        changed_at = hist[-1][0]
                 bound = max(ka, si) + spacing
+                if changed_at is not None:
+                    bound = max(x + max(ka, si), changed_at) + spacing - x
                 if y - x > bound:
                     fail("keepalive-gap", "%s: %d ticks without a datagram (keep-alive %d, send interval %d, update spacing <= %d)" %
                          (side, y - x, ka, si, spacing), frm=x, to=y)
